@@ -948,6 +948,7 @@ func c04Main(args []string) {
 	par := fs.Int("par", 6, "parallel experiments")
 	second := fs.Bool("second", false, "also crash the first restart at recovery points (repeated crash cycle)")
 	only := fs.String("only", "", "run a single point workload/role/name#k[+second]")
+	rsched := fs.String("rsched", "cancel-then-restart-submitter", "remote fault schedules (RemoteUnit.tla) to run")
 	_ = fs.Parse(args)
 	res := &Result{Counters: map[string]int{}, Violations: []Violation{}, Extra: map[string]any{}}
 	_ = os.MkdirAll(*base, 0o755)
@@ -1137,6 +1138,14 @@ func c04Main(args []string) {
 	var scripted []*outcome
 	var swg sync.WaitGroup
 	var smu sync.Mutex
+	var scheds []*schedResult
+	if *only == "" && *rsched != "" {
+		swg.Add(1)
+		go func() {
+			defer swg.Done()
+			scheds = remoteSchedules(res, *bin, *base, "C04", strings.Split(*rsched, ","), *seed)
+		}()
+	}
 	if *only == "" || strings.HasPrefix(*only, "disk-only") {
 		swg.Add(1)
 		go func() {
@@ -1272,6 +1281,9 @@ func c04Main(args []string) {
 	}
 	res.Extra["norm_file"], res.Extra["norm_events"], res.Extra["status_files"] = normFile, len(norm), nfiles
 	res.Extra["unit_trace_file"], res.Extra["unit_trace_events"] = unitFile, len(unitEvs)
+	rwFile := filepath.Join(*base, "rw_trace.ndjson")
+	res.Extra["rw_trace_file"], res.Extra["rw_trace_events"] = rwFile, writeRWTraces(rwFile, scheds)
+	res.Extra["remote_schedules"] = scheds
 	res.Distinct = len(distinct)
 	res.Extra["classes"] = classes
 	res.Extra["not_reached"] = notReached
